@@ -190,7 +190,7 @@ class SerialHost(Host):
             self._cyc(cur, line_state=J)
 
 
-E = namedtuple("E", "addr cfgd ctl otog itog rxq txq txcnt dirty lastout")
+E = namedtuple("E", "addr cfgd ctl otog itog rxq txq txcnt dirty lastout inflight")
 #   addr, cfgd  address / configuration the reference host has assigned
 #   ctl         control transfer in progress: None | (request name, stage, bytes received, expected data PID, NAKs in a row)
 #               stage: "din" IN data stage, "dout" OUT data stage, "sin" status IN, "sout" status OUT
@@ -200,6 +200,7 @@ E = namedtuple("E", "addr cfgd ctl otog itog rxq txq txcnt dirty lastout")
 #   txcnt       number of accepted tx beats mod 4 (tags)
 #   dirty       1 once the host reset its toggles by SET_CONFIGURATION after bulk traffic had advanced them
 #   lastout     payload size of the last ACKed bulk OUT packet (for retransmissions) or None
+#   inflight    1 while the host holds a bulk IN packet whose ACK was lost and the device has not yet seen an ACK for it
 
 
 def out_payload(length, toggle):
@@ -303,6 +304,7 @@ class AcmSpec(Spec):
             "the host resets its endpoint-4 data toggles to DATA0 when it sends SET_CONFIGURATION [USB 2.0 9.1.1.5]",
             "bulk OUT payloads never exceed max_packet_size; a repeated toggle is only sent as the retransmission of the last ACKed packet",
             "a bulk IN packet is either received (ACK sent), received with the ACK lost on its way, or not received; a packet with an unexpected toggle is ACKed and dropped [USB 2.0 8.6.4]",
+            "the host does not send SET_CONFIGURATION between receiving a bulk IN packet whose ACK got lost and acknowledging the device's next packet (resetting the toggles in that window duplicates the packet whatever the device does)",
             "application side: rx `ready` is constant during a bus transaction; the tx producer offers tagged bytes and withdraws an offer that is not accepted by the end of the action",
             "full speed (no high-speed negotiation), no bus reset, no suspend"]
 
@@ -331,7 +333,7 @@ class AcmSpec(Spec):
 
     # ---- exploration interface
     def env0(self):
-        return E(0, 0, None, 0, 0, (), (), 0, 0, None)
+        return E(0, 0, None, 0, 0, (), (), 0, 0, None, 0)
 
     def prologue(self, cur):
         self.host.begin()
@@ -350,11 +352,13 @@ class AcmSpec(Spec):
         if env[0] == "PROLOGUE-FAILED": return [("report-prologue-failure",)]
         acts = []
         ctl = env.ctl
+        reqs = self.reqs if not env.inflight else [r for r in self.reqs if REQS[r][2][0] != "config"]
+        configuring = ctl is not None and REQS[ctl[0]][2][0] == "config"
         if self.gran == "xfer":
-            acts += [("xfer", r) for r in self.reqs]
+            acts += [("xfer", r) for r in reqs]
         else:
             if ctl is None or self.abandon:
-                acts += [("setup", r) for r in self.reqs]
+                acts += [("setup", r) for r in reqs]
             if ctl is not None:
                 stage = ctl[1]
                 if stage in ("din", "sin"):
@@ -368,7 +372,8 @@ class AcmSpec(Spec):
             for L in d["sizes"]:
                 acts.append(("out", L, 0)); acts.append(("out", L, 1))
             if d.get("rep") and env.lastout is not None: acts.append(("outrep", env.lastout))
-            for mo in d["inmodes"]: acts.append(("in", mo))
+            for mo in d["inmodes"]:
+                if mo != "lost" or not configuring: acts.append(("in", mo))
             if d.get("feed"): acts.append(("infeed", d["feed"]))
             for l in d["push"]: acts.append(("push", 1, l))
             if d.get("burst"): acts.append(("push", d["burst"], 1))
@@ -487,6 +492,8 @@ class AcmSpec(Spec):
             raise Violation("tx:bad-response-to-in", dict(action=a, response=k))
         if mode == "noack": return env
         tog = 1 if k[1] == U.DATA1 else 0
+        if mode == "ack": env = env._replace(inflight=0)
+        elif tog == env.itog: env = env._replace(inflight=1)
         if tog != env.itog:
             if host is self.host: self.cover["tx-retransmission-dropped-by-host"] += 1
             return env
